@@ -169,4 +169,96 @@ theorem eval_succ (n : Nat) (ih : AllSpec n) (e : Expr) (s s' : St) (v : Val) (h
           exact ⟨by show s2.data.map cellOf = _; rw [d2, g1], by show s2.linear = _; rw [l2, g2],
             by show s2.addr = _; rw [a2, g3], g4, g5, by show s2.suspended = _; rw [su2, g6]⟩
 
+/-! ## `prepareArgs` -/
+
+/-- the first operand goes to a lazy formal: a lazy object is pushed -/
+theorem prep_lazy (e : Expr) (k : M Unit) (s s' : St) (hw : WF s) (hok : okL e = true)
+    (hex : (do
+      let t ← get
+      set { t with lazies := t.lazies ++ [({ e, stack := t.linear, curfunc := t.curfunc, value := none } : LazyObj)] }
+      pushData (.lazy t.lazies.length)
+      k : M Unit).run s = (.ok (), s')) :
+    ∃ s1, WF s1 ∧ TExt s s1 ∧ s1.data.map cellOf = .val :: s.data.map cellOf ∧ s1.linear = s.linear ∧
+      s1.addr = s.addr ∧ s1.curfunc = s.curfunc ∧ s1.pc = s.pc ∧ s1.suspended = s.suspended ∧ k.run s1 = (.ok (), s') := by
+  rw [run_bind, run_get] at hex
+  dsimp only at hex
+  rw [run_bind, run_set] at hex
+  dsimp only at hex
+  rw [run_bind, run_pushData] at hex
+  dsimp only at hex
+  refine ⟨{ s with lazies := s.lazies ++ [({ e, stack := s.linear, curfunc := s.curfunc, value := none } : LazyObj)],
+                   data := some (.lazy s.lazies.length) :: s.data }, ?_, TExt.same rfl rfl, rfl, rfl, rfl, rfl, rfl, rfl, hex⟩
+  refine hw.grow (TExt.same rfl rfl) (fun j h1 h2 => absurd h2 (Nat.not_lt.mpr h1)) rfl rfl rfl ?_ ?_
+  · intro lz hlz
+    rcases List.mem_append.mp hlz with hm | hm
+    · left; exact hm
+    · right
+      simp at hm; subst hm
+      exact ⟨hok, fun v hv => by cases hv⟩
+  · intro c hcm
+    rcases List.mem_cons.mp hcm with rfl | hcm
+    · right; trivial
+    · left; exact hcm
+
+/-- the first operand is evaluated by a nested run -/
+theorem prep_eval (n : Nat) (ih : AllSpec n) (e : Expr) (k : M Unit) (s s' : St) (hw : WF s) (hok : okL e = true)
+    (hex : (do
+      let v ← evalCallExpr n e
+      pushData v
+      k : M Unit).run s = (.ok (), s')) :
+    ∃ s1, WF s1 ∧ TExt s s1 ∧ s1.data.map cellOf = .val :: s.data.map cellOf ∧ s1.linear = s.linear ∧
+      s1.addr = s.addr ∧ s1.curfunc = s.curfunc ∧ s1.pc = s.pc ∧ s1.suspended = s.suspended ∧ k.run s1 = (.ok (), s') := by
+  rw [run_bind] at hex
+  rcases hev : (evalCallExpr n e).run s with ⟨r, s0⟩
+  rw [hev] at hex
+  cases r with
+  | error er => cases hex
+  | ok v =>
+    dsimp only at hex
+    rw [run_bind, run_pushData] at hex
+    dsimp only at hex
+    obtain ⟨hk, hv⟩ := ih.eval e s s0 v hw hok hev
+    refine ⟨{ s0 with data := some v :: s0.data }, ?_, hk.ext.trans (TExt.same rfl rfl), ?_, hk.same.linear, hk.same.addr,
+      hk.same.cur, hk.same.pc, hk.same.susp, hex⟩
+    · refine hk.wf.setData _ _ ?_
+      intro c hcm
+      rcases List.mem_cons.mp hcm with rfl | hcm
+      · exact cellOK_of_vok hv
+      · exact hk.wf.data c hcm
+    · show cellOf (some v) :: s0.data.map cellOf = _
+      rw [cellOf_plain (vok_plain hv), hk.same.data]
+
+theorem prep_succ (n : Nat) (ih : AllSpec n) (args : List Expr) (f : Option FnObj) (i : Nat) (s s' : St) (hw : WF s)
+    (hok : okLs args = true) (hex : (prepareArgs (n + 1) f i args).run s = (.ok (), s')) :
+    WF s' ∧ TExt s s' ∧ s'.data.map cellOf = List.replicate args.length .val ++ s.data.map cellOf ∧
+      s'.linear = s.linear ∧ s'.addr = s.addr ∧ s'.curfunc = s.curfunc ∧ s'.pc = s.pc ∧ s'.suspended = s.suspended := by
+  cases args with
+  | nil =>
+    simp only [VM.prepareArgs, run_pure] at hex
+    cases hex
+    exact ⟨hw, TExt.refl s, rfl, rfl, rfl, rfl, rfl, rfl⟩
+  | cons e es =>
+    simp only [okLs, Bool.and_eq_true] at hok
+    unfold VM.prepareArgs at hex
+    have key : ∃ s1, WF s1 ∧ TExt s s1 ∧ s1.data.map cellOf = .val :: s.data.map cellOf ∧ s1.linear = s.linear ∧
+        s1.addr = s.addr ∧ s1.curfunc = s.curfunc ∧ s1.pc = s.pc ∧ s1.suspended = s.suspended ∧
+        (prepareArgs n f (i + 1) es).run s1 = (.ok (), s') := by
+      cases f with
+      | none =>
+        dsimp only at hex
+        simp only [Bool.false_eq_true, if_false] at hex
+        exact prep_eval n ih e _ s s' hw hok.1 hex
+      | some fo =>
+        dsimp only at hex
+        by_cases hl : (!fo.user && fo.hasLazyFormals && fo.isLazyCallArg i) = true
+        · simp only [hl, if_true] at hex
+          exact prep_lazy e _ s s' hw hok.1 hex
+        · simp only [hl, if_false] at hex
+          exact prep_eval n ih e _ s s' hw hok.1 hex
+    obtain ⟨s1, hw1, he1, d1, l1, a1, c1, p1, su1, hrest⟩ := key
+    obtain ⟨hw2, he2, d2, l2, a2, c2, p2, su2⟩ := ih.prep f (i + 1) es s1 s' hw1 hok.2 hrest
+    refine ⟨hw2, he1.trans he2, ?_, l2.trans l1, a2.trans a1, c2.trans c1, p2.trans p1, su2.trans su1⟩
+    rw [d2, d1, List.length_cons, List.replicate_succ']
+    simp
+
 end ZygoVerif.RunInv
